@@ -40,6 +40,7 @@ type c04beh struct {
 	cut     bool          // close the connection after the first write (mid-body)
 	stall   time.Duration // sleep before answering
 	nested  bool          // the second part of the body is the text of an HTTP response (tagged with the same id)
+	never   bool          // the server never answers this request (nor any later one on the connection)
 }
 
 const (
@@ -56,17 +57,17 @@ type c04call struct {
 }
 
 type c04cfg struct {
-	pipeline     bool
-	maxConns     int
-	maxPending   int
-	stream       bool
-	maxBody      int // HostClient.MaxResponseBodySize (Content-Length bodies above it are streamed)
-	readTimeout  time.Duration
-	waitTimeout  time.Duration // HostClient.MaxConnWaitTimeout
-	attempts     int           // MaxIdemponentCallAttempts (default 1)
-	callers      [][]c04call
-	beh          map[string]c04beh
-	pipelineStop bool // PipelineClient: callers use Do (no deadline) when timeout==0
+	pipeline    bool
+	maxConns    int
+	maxPending  int
+	stream      bool
+	maxBody     int // HostClient.MaxResponseBodySize (Content-Length bodies above it are streamed)
+	readTimeout time.Duration
+	waitTimeout time.Duration // HostClient.MaxConnWaitTimeout
+	attempts    int           // MaxIdemponentCallAttempts (default 1)
+	callers     [][]c04call
+	beh         map[string]c04beh
+	vconn       bool // connections to the thread-less serial server model (c04_vserver_test.go) instead of PipeConns + server thread
 }
 
 type c04res struct {
@@ -86,6 +87,7 @@ type c04res struct {
 type c04obs struct {
 	res       []*c04res
 	srvSeen   [][]string // per connection: ids received
+	vs        *c04vServer
 	earlyConn map[int]bool
 	notes     []string
 }
@@ -135,6 +137,9 @@ func c04serve(o *c04obs, cfg *c04cfg, k int, conn net.Conn) {
 		id := string(req.Header.Peek("X-Id"))
 		o.srvSeen[k] = append(o.srvSeen[k], id)
 		b := cfg.beh[id]
+		if b.never {
+			mcrt.WaitUntil("server-stalls-for-good", func() bool { return false })
+		}
 		if b.stall > 0 {
 			mtime.Sleep(b.stall)
 		}
@@ -179,7 +184,12 @@ func c04body1(cfg c04cfg) func() {
 	return func() {
 		o := &c04obs{earlyConn: map[int]bool{}}
 		mcrt.SetUserData(o)
+		vs := &c04vServer{beh: func(id string) c04beh { return cfg.beh[id] }}
+		o.vs = vs
 		dial := func(string) (net.Conn, error) {
+			if cfg.vconn {
+				return vs.dial(), nil
+			}
 			pc := fasthttputil.NewPipeConns()
 			k := len(o.srvSeen)
 			o.srvSeen = append(o.srvSeen, nil)
@@ -319,6 +329,9 @@ func c04check(cfg c04cfg) func(x *mcrt.Exec) (string, string, string) {
 		if x.Out.Deadlock || x.Out.Horizon {
 			return class, "", ""
 		}
+		if cfg.vconn {
+			o.srvSeen = o.vs.seen
+		}
 		for _, r := range o.res {
 			if !r.returned || r.err != nil {
 				continue
@@ -328,7 +341,7 @@ func c04check(cfg c04cfg) func(x *mcrt.Exec) (string, string, string) {
 				shape := "garbled"
 				if ids[r.gotID] {
 					shape = "of-other-request"
-					if strings.HasSuffix(string(r.body), ":nested") || (r.streamed && strings.HasPrefix(r.gotID+":nested", string(r.body))) {
+					if nb := r.gotID + ":nested"; string(r.body) == nb || (r.streamed && len(r.body) > 0 && strings.HasPrefix(nb, string(r.body))) {
 						shape = "from-body-tail-of-other-response"
 					}
 				}
@@ -356,30 +369,27 @@ func TestVerif_C04(t *testing.T) {
 	r := vrt.Begin(t, "C04", "model_checking")
 	defer r.End()
 	r.Rule("closed systems: real HostClient (MaxConns 1-2, StreamResponseBody on/off, ReadTimeout/DoTimeout on the virtual clock, MaxConnWaitTimeout) or PipelineClient (MaxConns 1, MaxPendingRequests 2) " +
-		"with 1-3 caller threads x 1-2 calls against in-world server threads (PipeConns) that tag each response with the request id and vary framing, keep-alive/close, one/two writes with a delay, close mid-body, stall; " +
+		"with 1-3 caller threads x 1-2 calls against in-world servers (PipeConns + server thread, or a thread-less serial server model) that tag each response with the request id and vary framing, keep-alive/close, one/two writes with a delay, close mid-body, stall; " +
 		"streamed bodies are read fully / partly then CloseBodyStream / closed unread; all schedules, select choices and timer-first orders up to the deviation bound are executed; " +
 		"oracle per execution: every call returning nil has X-Id == its request id, status 200 and body == the server's body for that id (streamed: a prefix, the whole body on EOF); non-trivial: executions with >=1 deviation")
 	r.Assume("mcrt shim semantics (litmus-tested)", "sync.Pool modelled as deterministic LIFO", "HostClient idle-connection cleaner not started (connsCleanerRun preset; C18 covers it)",
-		"response bodies may contain arbitrary bytes, including text shaped like an HTTP message")
-	b := vrt.Pick(r, 2, 3)
+		"response bodies may contain arbitrary bytes, including text shaped like an HTTP message", "scenarios named */v use a harness net.Conn whose peer is a serial server model on the virtual clock")
 	var scs []mcx.Scenario
-	add := func(name string, bound int, tf bool, cfg c04cfg) {
+	add := func(name string, qb, tb int, tf bool, cfg c04cfg) {
 		if f := os.Getenv("VERIF_SCENARIO"); f != "" && !strings.Contains(name, f) {
 			return
 		}
+		bound := vrt.Pick(r, qb, tb)
 		if ob := os.Getenv("VERIF_BOUND"); ob != "" {
 			fmt.Sscan(ob, &bound)
 		}
 		scs = append(scs, mcx.Scenario{Name: name, Cfg: mcrt.Config{Bound: bound, TimerFirst: tf, Horizon: 6000}, Body: c04body1(cfg), Check: c04check(cfg)})
 	}
-	_ = b
-	_ = add
-	c04scenarios(r, add)
+	c04scenarios(add)
 	mcx.Run(r, scs)
 }
 
-func c04scenarios(r *vrt.R, add func(name string, bound int, tf bool, cfg c04cfg)) {
-	b := vrt.Pick(r, 2, 3)
+func c04scenarios(add func(name string, qb, tb int, tf bool, cfg c04cfg)) {
 	sec := time.Second
 	one := func(cs ...c04call) [][]c04call { return [][]c04call{cs} }
 	// --- streamed bodies closed before their end, connection reused by the next call of the same thread
@@ -391,75 +401,90 @@ func c04scenarios(r *vrt.R, add func(name string, bound int, tf bool, cfg c04cfg
 			mb = 4
 		}
 		for mode, mn := range []string{"readall", "readpart", "unread"} {
-			add(fmt.Sprintf("host/stream/%s/1caller-2calls/%s", fr, mn), b, false, c04cfg{maxConns: 1, stream: true, maxBody: mb,
+			add(fmt.Sprintf("host/stream/%s/1caller-2calls/%s", fr, mn), 2, 3, false, c04cfg{maxConns: 1, stream: true, maxBody: mb,
 				callers: one(c04call{id: "A", mode: mode}, c04call{id: "B"}),
 				beh:     map[string]c04beh{"A": beh, "B": {chunked: ch}}})
 		}
 	}
 	// the tail is written without a delay: only some interleavings leave it unread on the connection
-	add("host/stream/chunked/1caller-2calls/readpart-nodelay", b, false, c04cfg{maxConns: 1, stream: true,
+	add("host/stream/chunked/1caller-2calls/readpart-nodelay", 2, 3, false, c04cfg{maxConns: 1, stream: true,
 		callers: one(c04call{id: "A", mode: c04ReadPart}, c04call{id: "B"}),
 		beh:     map[string]c04beh{"A": {chunked: true, split: true, nested: true}, "B": {chunked: true}}})
 	// plain (not HTTP-shaped) tail, one retry allowed: the next call may fail or be retried, it must never succeed with foreign bytes
-	add("host/stream/chunked/1caller-2calls/readpart-plain-tail-retry", b, false, c04cfg{maxConns: 1, stream: true, attempts: 2,
+	add("host/stream/chunked/1caller-2calls/readpart-plain-tail-retry", 2, 3, false, c04cfg{maxConns: 1, stream: true, attempts: 2,
 		callers: one(c04call{id: "A", mode: c04ReadPart}, c04call{id: "B"}),
 		beh:     map[string]c04beh{"A": {chunked: true, split: true, delay: sec}, "B": {chunked: true}}})
-	// two threads: the second waits for the only connection and gets it handed over by the early close
-	add("host/stream/chunked/2callers-handover/readpart", b, false, c04cfg{maxConns: 1, stream: true, waitTimeout: 10 * sec,
-		callers: [][]c04call{{{id: "A", mode: c04ReadPart}}, {{id: "B"}}},
-		beh:     map[string]c04beh{"A": {chunked: true, split: true, delay: sec, nested: true}, "B": {chunked: true}}})
-	add("host/stream/chunked/2callers-2conns/mixed", b, false, c04cfg{maxConns: 2, stream: true,
-		callers: [][]c04call{{{id: "A", mode: c04ReadPart}, {id: "C"}}, {{id: "B", mode: c04CloseUnread}, {id: "D", mode: c04ReadPart}}},
-		beh: map[string]c04beh{"A": {chunked: true, split: true, nested: true}, "B": {chunked: true, split: true, nested: true, close: true},
-			"C": {chunked: true}, "D": {chunked: true, split: true}}})
 	// streamed body whose tail arrives after the call's deadline: the read fails, the caller closes the stream
-	add("host/stream/chunked/deadline-between-writes", b, true, c04cfg{maxConns: 1, stream: true,
+	add("host/stream/chunked/deadline-between-writes", 2, 3, true, c04cfg{maxConns: 1, stream: true,
 		callers: one(c04call{id: "A", timeout: sec}, c04call{id: "B", after: 2 * sec}),
 		beh:     map[string]c04beh{"A": {chunked: true, split: true, delay: 2 * sec, nested: true}, "B": {chunked: true}}})
-	// --- buffered bodies
-	add("host/plain/2callers-2calls/2conns", b, false, c04cfg{maxConns: 2,
-		callers: [][]c04call{{{id: "A"}, {id: "C"}}, {{id: "B"}, {id: "D"}}},
-		beh:     map[string]c04beh{"A": {split: true, nested: true}, "B": {close: true}, "C": {chunked: true, split: true}, "D": {}}})
-	add("host/plain/3callers/2conns-wait", b, false, c04cfg{maxConns: 2, waitTimeout: 10 * sec,
-		callers: [][]c04call{{{id: "A"}}, {{id: "B"}}, {{id: "C"}}},
-		beh:     map[string]c04beh{"A": {split: true, nested: true}, "B": {chunked: true, close: true}, "C": {}}})
-	add("host/plain/2callers/cut-mid-body", b, false, c04cfg{maxConns: 1, waitTimeout: 10 * sec,
-		callers: [][]c04call{{{id: "A"}}, {{id: "B"}}},
-		beh:     map[string]c04beh{"A": {cut: true, nested: true}, "B": {}}})
-	add("host/plain/cut-then-retry", b, false, c04cfg{maxConns: 1, attempts: 2,
+	for _, v := range []bool{false, true} {
+		sfx, qb, tb := "", 1, 2
+		if v {
+			sfx, qb, tb = "/v", 2, 3
+		}
+		// two threads: the second waits for the only connection and gets it handed over by the early close
+		add("host/stream/chunked/2callers-handover/readpart"+sfx, 2, 3, false, c04cfg{vconn: v, maxConns: 1, stream: true, waitTimeout: 10 * sec,
+			callers: [][]c04call{{{id: "A", mode: c04ReadPart}}, {{id: "B"}}},
+			beh:     map[string]c04beh{"A": {chunked: true, split: true, delay: sec, nested: true}, "B": {chunked: true}}})
+		add("host/stream/chunked/2callers-2conns/mixed"+sfx, qb, tb, false, c04cfg{vconn: v, maxConns: 2, stream: true,
+			callers: [][]c04call{{{id: "A", mode: c04ReadPart}, {id: "C"}}, {{id: "B", mode: c04CloseUnread}, {id: "D", mode: c04ReadPart}}},
+			beh: map[string]c04beh{"A": {chunked: true, split: true, delay: sec, nested: true}, "B": {chunked: true, split: true, nested: true, close: true},
+				"C": {chunked: true}, "D": {chunked: true, split: true}}})
+		// --- buffered bodies
+		add("host/plain/2callers-2calls/2conns"+sfx, qb, tb, false, c04cfg{vconn: v, maxConns: 2,
+			callers: [][]c04call{{{id: "A"}, {id: "C"}}, {{id: "B"}, {id: "D"}}},
+			beh:     map[string]c04beh{"A": {split: true, nested: true}, "B": {close: true}, "C": {chunked: true, split: true}, "D": {}}})
+		if v { // PipeConns variant: 5*10^5 executions at bound 1
+			add("host/plain/3callers/2conns-wait"+sfx, qb, tb, false, c04cfg{vconn: v, maxConns: 2, waitTimeout: 10 * sec,
+				callers: [][]c04call{{{id: "A"}}, {{id: "B"}}, {{id: "C"}}},
+				beh:     map[string]c04beh{"A": {split: true, nested: true}, "B": {chunked: true, close: true}, "C": {}}})
+		}
+		add("host/plain/2callers/cut-mid-body"+sfx, 2, 3, false, c04cfg{vconn: v, maxConns: 1, waitTimeout: 10 * sec,
+			callers: [][]c04call{{{id: "A"}}, {{id: "B"}}},
+			beh:     map[string]c04beh{"A": {cut: true, nested: true}, "B": {}}})
+		add("host/plain/dotimeout/2callers-stall"+sfx, qb, tb, true, c04cfg{vconn: v, maxConns: 1, waitTimeout: 10 * sec,
+			callers: [][]c04call{{{id: "A", timeout: sec}}, {{id: "B", timeout: 5 * sec}}},
+			beh:     map[string]c04beh{"A": {stall: 2 * sec}, "B": {}}})
+	}
+	add("host/plain/cut-then-retry", 2, 3, false, c04cfg{maxConns: 1, attempts: 2,
 		callers: one(c04call{id: "A"}, c04call{id: "B"}),
 		beh:     map[string]c04beh{"A": {cut: true, chunked: true}, "B": {}}})
 	// --- timeouts while the server is still answering
-	add("host/plain/readtimeout/stall-past-deadline", b, true, c04cfg{maxConns: 1, readTimeout: sec,
+	add("host/plain/readtimeout/stall-past-deadline", 2, 3, true, c04cfg{maxConns: 1, readTimeout: sec,
 		callers: one(c04call{id: "A"}, c04call{id: "B", after: 2 * sec}),
 		beh:     map[string]c04beh{"A": {stall: 2 * sec}, "B": {}}})
-	add("host/plain/dotimeout/deadline-between-writes", b, true, c04cfg{maxConns: 1,
+	add("host/plain/dotimeout/deadline-between-writes", 2, 3, true, c04cfg{maxConns: 1,
 		callers: one(c04call{id: "A", timeout: sec}, c04call{id: "B", after: 2 * sec}),
 		beh:     map[string]c04beh{"A": {split: true, delay: 2 * sec, nested: true}, "B": {}}})
-	add("host/plain/dotimeout/2callers-stall", b, true, c04cfg{maxConns: 1, waitTimeout: 10 * sec,
-		callers: [][]c04call{{{id: "A", timeout: sec}}, {{id: "B", timeout: 5 * sec}}},
-		beh:     map[string]c04beh{"A": {stall: 2 * sec}, "B": {}}})
-	add("host/plain/dotimeout/answer-races-deadline", b, true, c04cfg{maxConns: 1,
+	add("host/plain/dotimeout/answer-races-deadline", 2, 3, true, c04cfg{maxConns: 1,
 		callers: one(c04call{id: "A", timeout: sec}, c04call{id: "B"}),
 		beh:     map[string]c04beh{"A": {stall: sec}, "B": {}}})
-	// --- PipelineClient
-	pb := vrt.Pick(r, 1, 2)
-	add("pipeline/2callers/do", pb, false, c04cfg{pipeline: true, maxConns: 1, maxPending: 2,
+	// --- PipelineClient (second and third caller start 1 ms apart: see the C38 harness for the rationale)
+	ms := time.Millisecond
+	add("pipeline/2callers/do", 1, 1, false, c04cfg{pipeline: true, maxConns: 1, maxPending: 2,
+		callers: [][]c04call{{{id: "A"}}, {{id: "B", after: ms}}},
+		beh:     map[string]c04beh{"A": {split: true, delay: sec, nested: true}, "B": {chunked: true}}})
+	add("pipeline/2callers/do/sim/v", 1, 2, false, c04cfg{vconn: true, pipeline: true, maxConns: 1, maxPending: 2,
 		callers: [][]c04call{{{id: "A"}}, {{id: "B"}}},
-		beh:     map[string]c04beh{"A": {split: true, nested: true}, "B": {chunked: true}}})
-	add("pipeline/1caller-2calls/do", b, false, c04cfg{pipeline: true, maxConns: 1, maxPending: 2,
+		beh:     map[string]c04beh{"A": {split: true, delay: sec, nested: true}, "B": {chunked: true}}})
+	add("pipeline/1caller-2calls/do", 2, 2, false, c04cfg{pipeline: true, maxConns: 1, maxPending: 2,
 		callers: one(c04call{id: "A"}, c04call{id: "B"}),
 		beh:     map[string]c04beh{"A": {split: true, delay: sec, nested: true}, "B": {chunked: true}}})
-	add("pipeline/2callers/first-times-out", pb, true, c04cfg{pipeline: true, maxConns: 1, maxPending: 2,
+	add("pipeline/2callers/first-times-out/v", 1, 2, true, c04cfg{vconn: true, pipeline: true, maxConns: 1, maxPending: 2,
 		callers: [][]c04call{{{id: "A", timeout: sec}}, {{id: "B", timeout: 5 * sec}}},
 		beh:     map[string]c04beh{"A": {stall: 2 * sec, nested: true, split: true}, "B": {}}})
-	add("pipeline/2callers/server-closes-after-first", pb, false, c04cfg{pipeline: true, maxConns: 1, maxPending: 2,
-		callers: [][]c04call{{{id: "A"}}, {{id: "B"}}},
-		beh:     map[string]c04beh{"A": {close: true}, "B": {}}})
-	add("pipeline/2callers/cut-mid-body", pb, false, c04cfg{pipeline: true, maxConns: 1, maxPending: 2,
-		callers: [][]c04call{{{id: "A"}}, {{id: "B"}}},
-		beh:     map[string]c04beh{"A": {cut: true, nested: true}, "B": {}}})
-	add("pipeline/3callers/do", vrt.Pick(r, 1, 1), false, c04cfg{pipeline: true, maxConns: 1, maxPending: 2,
-		callers: [][]c04call{{{id: "A"}}, {{id: "B"}}, {{id: "C"}}},
-		beh:     map[string]c04beh{"A": {split: true, nested: true}, "B": {chunked: true}, "C": {}}})
+	// the work item of a timed-out call is still queued when the same thread makes its next call
+	add("pipeline/1caller-2calls/first-times-out/v", 2, 3, true, c04cfg{vconn: true, pipeline: true, maxConns: 1, maxPending: 2,
+		callers: one(c04call{id: "A", timeout: sec}, c04call{id: "B", timeout: 5 * sec}),
+		beh:     map[string]c04beh{"A": {stall: 2 * sec, nested: true, split: true}, "B": {}}})
+	add("pipeline/2callers/server-closes-after-first/v", 1, 1, false, c04cfg{vconn: true, pipeline: true, maxConns: 1, maxPending: 2,
+		callers: [][]c04call{{{id: "A"}}, {{id: "B", after: ms}}},
+		beh:     map[string]c04beh{"A": {close: true, stall: 2 * ms}, "B": {}}})
+	add("pipeline/2callers/cut-mid-body/v", 1, 1, false, c04cfg{vconn: true, pipeline: true, maxConns: 1, maxPending: 2,
+		callers: [][]c04call{{{id: "A", timeout: 5 * sec}}, {{id: "B", timeout: 5 * sec, after: ms}}},
+		beh:     map[string]c04beh{"A": {cut: true, nested: true, stall: 2 * ms}, "B": {}}})
+	add("pipeline/3callers/do/v", 1, 1, false, c04cfg{vconn: true, pipeline: true, maxConns: 1, maxPending: 2,
+		callers: [][]c04call{{{id: "A"}}, {{id: "B", after: ms}}, {{id: "C", after: 2 * ms}}},
+		beh:     map[string]c04beh{"A": {split: true, delay: sec, nested: true}, "B": {chunked: true}, "C": {}}})
 }
